@@ -50,6 +50,56 @@ Theorem C18_cached_models_survive : forall fs fs' c f s e s' k v,
 Proof. exact after_failure_cache_serves. Qed.
 Print Assumptions C18_cached_models_survive.
 
+(* LAST CLAUSE OF C18 ("after the failing file is corrected, the next load succeeds with correct identities"), at full
+   strength.  load_main ends with the garbage collection of Model/Repo.v (`tidy`): after a failure the models of the
+   attempt - unreachable by C18_clean, which is proved on the un-collected load_main_raw - are dropped.  Then the
+   state after a failed load equals the state before it in every component but the file-open trace of the failed
+   attempt itself (C18_failed_load_restores_state), hence EVERY following load, on whatever the files have been
+   rewritten to, is literally the load that would have happened had the failed attempt never taken place: same
+   outcome (in particular it succeeds iff it would have), same file-open trace, same repositories, local models,
+   reference targets and model identities (C18_reload_as_if_never_failed); so all C17 theorems about that load
+   apply unchanged, and a failing load can be deleted from any history (C18_failing_load_is_invisible).
+   `Tidy` (normal form of the per-model tables) holds initially and after every load (C18_histories_stable_tidy). *)
+Theorem C18_failed_load_restores_state : forall fs c f s e s',
+  Stable s -> Tidy s -> load_main fs c f s = (inl e, s') ->
+  heap s' = heap s /\ allm s' = allm (begin_op c s) /\ locals s' = locals s /\ constr s' = constr s /\
+  targets s' = targets s /\ curop s' = curop s.
+Proof. exact failed_load_restores_state. Qed.
+Print Assumptions C18_failed_load_restores_state.
+
+Theorem C18_reload_as_if_never_failed : forall fs c f s e s',
+  Stable s -> Tidy s -> load_main fs c f s = (inl e, s') ->
+  forall fs' f', load_main fs' c f' s' = load_main fs' c f' s.
+Proof. exact reload_as_if_never_failed. Qed.
+Print Assumptions C18_reload_as_if_never_failed.
+
+Theorem C18_reload_in_every_history : forall c builtins fs0 ops fs f e s',
+  let s := run_hist c fs0 (init_state builtins) ops in
+  load_main fs c f s = (inl e, s') -> forall fs' f', load_main fs' c f' s' = load_main fs' c f' s.
+Proof. exact reload_in_history. Qed.
+Print Assumptions C18_reload_in_every_history.
+
+Theorem C18_failing_load_is_invisible : forall c fs f s e s' ops fs' f',
+  Stable s -> Tidy s -> load_main fs c f s = (inl e, s') ->
+  run_hist c fs' s' (OLoad f' :: ops) = run_hist c fs' s (OLoad f' :: ops).
+Proof. exact failing_load_is_invisible. Qed.
+Print Assumptions C18_failing_load_is_invisible.
+
+Theorem C18_histories_stable_tidy : forall c ops fs s,
+  Stable s -> Tidy s -> Stable (run_hist c fs s ops) /\ Tidy (run_hist c fs s ops).
+Proof. exact run_hist_stable_tidy. Qed.
+Print Assumptions C18_histories_stable_tidy.
+
+(* The un-collected load (load_main_raw) leaves the models of a failed attempt unreachable: this is what
+   justifies dropping them.  Same statement as C18_clean, on the raw function. *)
+Theorem C18_clean_before_collection : forall fs c f s e s',
+  Stable s -> load_main_raw fs c f s = (inl e, s') ->
+  allm s' = allm (begin_op c s) /\
+  (forall x, x < length (heap s) -> local_of x s' = local_of x s) /\
+  Stable s'.
+Proof. exact load_main_failure_clean_raw. Qed.
+Print Assumptions C18_clean_before_collection.
+
 (* The state between loads stays well formed along every history (used by all of the above). *)
 Theorem C18_histories_stable : forall c ops fs s, Stable s -> Stable (run_hist c fs s ops).
 Proof. exact run_hist_stable. Qed.
@@ -58,7 +108,8 @@ Print Assumptions C18_histories_stable.
 (* non-vacuity: global repository; an earlier load cached file 2; then a diamond 0 -> {1,2}, 1 -> 2
    whose MAIN model's model processor fails (the case that was broken before the fix): nothing of
    the attempt remains, the earlier model stays, and after the repair the load succeeds with
-   fresh models for 0 and 1 and the cached model for 2. *)
+   fresh models for 0 and 1 and the cached model for 2 - literally the load that would have happened without
+   the failed attempt. *)
 Example C18_clean_witness :
   let bad := [mkFile [[1]; [2]] [100%N] [101%N; 102%N] false false true;
               mkFile [[2]] [101%N] [102%N] false false false;
@@ -71,8 +122,9 @@ Example C18_clean_witness :
   Stable s /\ allm s = [(2, 0)] /\
   fst (load_main bad c 0 s) = inl (EMp 0) /\ reads (snd (load_main bad c 0 s)) = [0; 1] /\
   allm (snd (load_main bad c 0 s)) = [(2, 0)] /\
-  fst (load_main good c 0 (snd (load_main bad c 0 s))) = inr 3 /\
-  allm (snd (load_main good c 0 (snd (load_main bad c 0 s)))) = [(2, 0); (0, 3); (1, 4)].
+  fst (load_main good c 0 (snd (load_main bad c 0 s))) = inr 1 /\
+  allm (snd (load_main good c 0 (snd (load_main bad c 0 s)))) = [(2, 0); (0, 1); (1, 2)] /\
+  load_main good c 0 (snd (load_main bad c 0 s)) = load_main good c 0 s.
 Proof.
   cbn zeta. split; [apply run_hist_stable, Stable_init|]. vm_compute. repeat split; reflexivity.
 Qed.
